@@ -462,6 +462,16 @@ type c03Block struct {
 	votedAt uint64
 }
 
+// c03Bad: a part set whose bytes do not decode to a block that passes Block.ValidateBasic
+// (BlockFromProto fails in addProposalBlockPart): the header of a block with a tampered body
+type c03Bad struct {
+	hash    common.Hash // the hash a proposal for it names (the header's)
+	parts   *types.PartSet
+	hashID  int
+	partsID int
+	kind    string
+}
+
 // c03SigInfo: who signed which canonical vote content (ideal-signature view of a real signature)
 type c03SigInfo struct {
 	id     int
@@ -494,6 +504,7 @@ type c03Case struct {
 	byHash map[common.Hash][]*c03Block // blocks with that header hash (twins share it)
 	byContent map[string]*c03Block
 	sigReg  map[string]*c03SigInfo
+	bads    []*c03Bad
 	tsMode  int // timestamps of the adversary's votes: 0 wall clock, 1 one hour ahead, 2 pinned to genesis, 3 genesis + height ns
 	// oracle state
 	recv        []c03RecvVote
@@ -807,6 +818,73 @@ func (c *c03Case) otherEncoding(orig *c03Block) *c03Block {
 	c.o.InOnly(fmt.Sprintf("BLOCK %d %d %d", b.hashID, b.partsID, b.validAt))
 	c.o.Count("block:other-part-size")
 	return b
+}
+
+// newBad builds the bytes of a block of the current height that BlockFromProto rejects: the header
+// of a valid block with (a) one signature of the last commit dropped or, at the first height, a
+// signature added (LastCommitHash mismatch), or (b) another evidence hash in the header (the header
+// hash changes, Header.EvidenceHash no longer matches the empty evidence list).
+func (c *c03Case) newBad() *c03Bad {
+	var l []*c03Block
+	for _, b := range c.blocks {
+		if b.validAt == c.nd.cs.Height {
+			l = append(l, b)
+		}
+	}
+	var orig *c03Block
+	if len(l) > 0 {
+		orig = l[c.r.Intn(len(l))]
+	} else {
+		orig = c.newBlock("valid")
+	}
+	pb, err := orig.blk.ToProto()
+	if err != nil {
+		panic(err)
+	}
+	kind := "bad-lastcommit"
+	hash := orig.blk.Hash()
+	if c.r.Chance(1, 2) {
+		kind = "bad-evidencehash"
+		pb.Header.EvidenceHash = common.BytesToHash([]byte{12, byte(c.r.Intn(200))}).Bytes()
+		if h, err := types.HeaderFromProto(&pb.Header); err == nil {
+			hash = h.Hash()
+		}
+	} else if pb.LastCommit != nil && len(pb.LastCommit.Signatures) > 1 {
+		pb.LastCommit.Signatures = pb.LastCommit.Signatures[1:]
+	} else if pb.LastCommit != nil {
+		cs := types.NewCommitSigForBlock([]byte{1, 2, 3}, c.net.vals.Validators[0].Address, c03Genesis)
+		pb.LastCommit.Signatures = append(pb.LastCommit.Signatures, *cs.ToProto())
+	}
+	bz, err := pb.Marshal()
+	if err != nil {
+		panic(err)
+	}
+	if _, err := types.BlockFromProto(pb, trie.NewStackTrie(nil)); err == nil {
+		c.o.Fail(c.opNo, "harness-bad-block-decodes", kind)
+	}
+	ps := types.NewPartSetFromData(bz, []uint32{types.BlockPartSizeBytes, 300}[c.r.Pick(2, 1)])
+	for _, x := range c.bads {
+		if x.parts.HasHeader(ps.Header()) {
+			return x
+		}
+	}
+	b := &c03Bad{hash: hash, parts: ps, hashID: c.hid(hash), partsID: c.pid(ps.Header()), kind: kind}
+	c.bads = append(c.bads, b)
+	c.o.Count("block:" + kind)
+	return b
+}
+
+func (c *c03Case) opBadBlock(h uint64, r uint32, b *c03Bad, peer int) {
+	in := fmt.Sprintf("KB %d %d %d", h, r, b.partsID)
+	c.run(in, func() string {
+		pid := p2p.ID(fmt.Sprintf("peer%d", peer))
+		for i := 0; i < int(b.parts.Total()); i++ {
+			if p := c.nd.deliverMsg(&BlockPartMessage{Height: h, Round: r, Part: b.parts.GetPart(i)}, pid); p != "" {
+				return p
+			}
+		}
+		return ""
+	})
 }
 
 func c03ContentKey(blk *types.Block) string {
@@ -1641,7 +1719,28 @@ func (c *c03Case) drainOne() bool {
 				}
 			}
 			if blk == nil {
-				panic("internal block parts of an unknown block")
+				// the node re-proposes bytes that are not a well-formed block (it can only have them in
+				// ValidBlockParts if addProposalBlockPart accepted them): deliver them as such
+				for _, x := range c.bads {
+					if x.parts.Total() != uint32(len(parts)) {
+						continue
+					}
+					if ok, err := types.NewPartSetFromHeader(x.parts.Header()).AddPart(m.Part); ok && err == nil {
+						c.o.Fail(c.opNo, "node-proposes-undecodable-bytes", fmt.Sprintf("h=%d r=%d kind=%s", m.Height, m.Round, x.kind))
+						c.run(fmt.Sprintf("KB %d %d %d", m.Height, m.Round, x.partsID), func() string {
+							for _, pm := range parts {
+								if p := c.nd.deliverMsg(pm, ""); p != "" {
+									return p
+								}
+							}
+							return ""
+						})
+						return true
+					}
+				}
+				c.o.Fail(c.opNo, "node-proposes-unknown-bytes", fmt.Sprintf("h=%d r=%d", m.Height, m.Round))
+				c.dead = true
+				return true
 			}
 			c.run(fmt.Sprintf("K %d %d %d %d", m.Height, m.Round, blk.hashID, blk.partsID), func() string {
 				blk.held = true
@@ -1754,6 +1853,11 @@ func (c *c03Case) advProposal() {
 	cs := c.nd.cs
 	b := c.someBlock()
 	bid := c.someBid(b)
+	if c.r.Chance(1, 14) {
+		bad := c.newBad()
+		bid = types.BlockID{Hash: bad.hash, PartsHeader: bad.parts.Header()}
+		c.o.Count("family:proposal-for-undecodable-bytes")
+	}
 	h, r := cs.Height, cs.Round
 	switch c.r.Pick(88, 4, 4, 4) {
 	case 1:
@@ -1809,6 +1913,15 @@ func (c *c03Case) advBlock() {
 		for _, x := range c.blocks {
 			if x.parts.HasHeader(cs.ProposalBlockParts.Header()) {
 				b = x
+			}
+		}
+	}
+	if cs.ProposalBlockParts != nil && !cs.ProposalBlockParts.IsComplete() {
+		for _, x := range c.bads {
+			if x.parts.HasHeader(cs.ProposalBlockParts.Header()) && c.r.Chance(4, 5) {
+				c.o.Mark("undecodable-bytes-completed")
+				c.opBadBlock(cs.Height, cs.Round, x, 1+c.r.Intn(3))
+				return
 			}
 		}
 	}
@@ -2040,6 +2153,28 @@ func (c *c03Case) advStaleProbe() {
 	}
 }
 
+// advCatchupFlood: one peer sends votes for four rounds the node does not track yet (beyond
+// round+1): HeightVoteSet lets a peer open two such rounds, the third and fourth are refused.
+func (c *c03Case) advCatchupFlood() {
+	cs := c.nd.cs
+	h, base := cs.Height, cs.Round+2
+	peer := 4 + c.r.Intn(3) // a peer that has not opened any round yet (the other families use peers 1..3)
+	c.o.Count("family:catchup-flood")
+	typ := kproto.PrevoteType
+	if c.r.Chance(1, 2) {
+		typ = kproto.PrecommitType
+	}
+	bid := c.pickValue()
+	for k := uint32(0); k < 4 && !c.dead && cs.Height == h; k++ {
+		idx := c.r.Intn(c.net.n)
+		if idx == c.nd.me {
+			continue
+		}
+		v, ok := c.signVoteAs(idx, typ, h, base+k, bid, 0)
+		c.opVote(peer, v, ok)
+	}
+}
+
 // advUnlockProbe: while the node is locked on B, deliver a complete +2/3 prevote set for another
 // valid block C in a round BEFORE the lock round (which must not release the lock), skip to a later
 // round with +2/3-any prevotes split over several values (no polka), and give the node a complete
@@ -2135,6 +2270,10 @@ func (c *c03Case) script(maxOps int) {
 			c.advUnlockProbe()
 			continue
 		}
+		if cs.Step != cstypes.RoundStepCommit && cs.Round < c03MaxRounds-10 && c.r.Chance(1, 60) {
+			c.advCatchupFlood()
+			continue
+		}
 		if cs.LockedBlock == nil && cs.Step != cstypes.RoundStepCommit && c.r.Chance(1, 25) {
 			if cs.Height > 1 && c.r.Chance(1, 2) {
 				c.advStaleProbe()
@@ -2198,6 +2337,18 @@ func TestVerifC03(t *testing.T) {
 				powers[k] = int64(1 + r.Intn(10))
 			}
 		}
+		if r.Chance(1, 14) {
+			// near-maximal voting powers: the total sits at the cap (MaxTotalVotingPower = MaxInt64/8), so
+			// the int64 quorum arithmetic (total*2/3+1), the running sums and the median's total/2 work
+			// at the largest values a validator set admits
+			for k := range powers {
+				powers[k] = types.MaxTotalVotingPower/int64(n) - int64(r.Intn(5))
+			}
+			if r.Chance(1, 2) {
+				powers[r.Intn(n)] = int64(1 + r.Intn(3))
+			}
+			o.Count("family:near-maximal-powers")
+		}
 		directed := 0 // the scripted exhibitions of the known finding: two cases in every forty
 		switch i % 40 {
 		case 7:
@@ -2254,7 +2405,10 @@ func TestVerifC03(t *testing.T) {
 		if directed != 0 {
 			c.directedSameHash(directed)
 			if !c.dead {
-				o.Fail(c.opNo, "harness-directed-same-hash", fmt.Sprintf("variant %d did not end in the halt it scripts", directed))
+				// (a repaired node survives the scenario: not a failure)
+				o.Count(fmt.Sprintf("directed-same-hash:variant-%d-survived", directed))
+			} else {
+				o.Count(fmt.Sprintf("directed-same-hash:variant-%d-halted", directed))
 			}
 		}
 		c.script(60 + r.Intn(120))
